@@ -17,6 +17,7 @@ package main
 // dependency edge) and its consumption in reverse.
 
 import (
+	"fmt"
 	"go/ast"
 	"go/token"
 	"strings"
@@ -156,5 +157,83 @@ func c16r5(c *RC) {
 		})
 		c.Check(sends && stops, fq+"|each-listed-invocation-compiled-or-error", pr.Pos(revLoop.Pos()),
 			"the reverse loop no longer sends Worker.Compile for each listed invocation and stops at the first error: a dependent is compiled after its dependency failed to compile")
+	}
+}
+
+// C16-R6: the location a Func records is that of the user's bigslice.Func
+// call.  The registry comparison between driver and worker (FuncLocations /
+// FuncLocationsDiff) is only as good as those locations: if every Func records
+// the same library line, two different registries of equal length compare
+// equal.  runtime.Caller(k) must be given the number of frames between its
+// own function and user code (1 in the exported constructor itself, 2 in a
+// helper it calls, ...), and its file/line results must be stored in the
+// FuncValue.
+func c16r6(c *RC) {
+	pr := c.P
+	n := 0
+	for _, fn := range pr.FuncsIn("") {
+		if fn.Body == nil {
+			continue
+		}
+		for _, k := range callsIn(fn.Body) {
+			if fn.Pkg.CalleeName(k) != "runtime.Caller" || len(k.Args) != 1 {
+				continue
+			}
+			// only the call whose results land in a FuncValue
+			var as *ast.AssignStmt
+			for _, p := range pathTo(fn.Body, k) {
+				if a, ok := p.(*ast.AssignStmt); ok {
+					as = a
+				}
+			}
+			if as == nil || len(as.Lhs) != 4 {
+				continue
+			}
+			fileF, lineF := "", ""
+			if sel, ok := as.Lhs[1].(*ast.SelectorExpr); ok {
+				fileF = pr.fieldQName(fn.Pkg.FieldOf(sel))
+			}
+			if sel, ok := as.Lhs[2].(*ast.SelectorExpr); ok {
+				lineF = pr.fieldQName(fn.Pkg.FieldOf(sel))
+			}
+			if fileF != ".FuncValue.file" && lineF != ".FuncValue.line" {
+				continue
+			}
+			n++
+			c.Check(fileF == ".FuncValue.file" && lineF == ".FuncValue.line", fn.QName()+"|location-stored", pr.Pos(as.Pos()),
+				"the file and line of the Func's definition site are no longer both stored in the FuncValue")
+			want := apiDepth(pr, fn, map[*Func]bool{})
+			v, isC := constInt(fn.Pkg, k.Args[0])
+			if want == 0 {
+				c.Undecide("%s: records a Func location but its distance from the exported API is not determined", fn.QName())
+				continue
+			}
+			c.Check(isC && v == int64(want), fn.QName()+"|location-is-the-users-call-site", pr.Pos(k.Pos()),
+				fmt.Sprintf("runtime.Caller(%s) in %s, which is %d frame(s) below the exported API: every Func records the same library location instead of the user's bigslice.Func call, so the driver/worker registry comparison sees identical location lists for different registries of equal length and a mismatched worker is accepted", expr(k.Args[0]), fn.QName(), want))
+		}
+	}
+	c.Floor("Func location capture sites", n, 1)
+	// FuncLocations reports file:line of every registered Func, in index order
+	if fl := c.MustFn(".FuncLocations"); fl != nil {
+		ok := false
+		ast.Inspect(fl.Body, func(nd ast.Node) bool {
+			if r, isR := nd.(*ast.RangeStmt); isR && expr(r.X) == "funcs" {
+				uses := 0
+				ast.Inspect(r.Body, func(m ast.Node) bool {
+					if sel, isS := m.(*ast.SelectorExpr); isS {
+						switch pr.fieldQName(fl.Pkg.FieldOf(sel)) {
+						case ".FuncValue.file", ".FuncValue.line":
+							uses++
+						}
+					}
+					return true
+				})
+				if uses >= 2 {
+					ok = true
+				}
+			}
+			return true
+		})
+		c.Check(ok, fl.QName()+"|lists-file-and-line-per-func", pr.Pos(fl.Body.Pos()), "FuncLocations no longer lists the recorded file and line of every registered Func in registry order")
 	}
 }
